@@ -308,7 +308,38 @@ def check_importdirs(case):
             break
     if outs[0][0] != 0:
         viol.append({"key": "import-dir-compile-failed", "msg": outs[0][2][-300:]})
-    return {"viol": viol, "n": len(outs), "traces": len(outs), "transitions": len(outs), "state_keys": [], "nt": ["importdirs-a", "importdirs-b"]}
+    # *different* files of the same name in several import directories, and an import that exists nowhere: which file
+    # wins (the first directory listed) and what the not-found diagnostic lists must not depend on the hash seed
+    seeds = case.get("seeds", list(range(8)))
+    for scenario, main_text in (("shadowed", B_TEXT), ("missing", 'import "zz.emb" as zz\n' + B_TEXT)):
+        per_seed = {}
+        for seed in seeds:
+            d = tempfile.mkdtemp(prefix="embverif-")
+            try:
+                for k, sub in enumerate(("dir_b", "dir_a", "dir_c", "zdir")):
+                    os.mkdir(os.path.join(d, sub))
+                    with open(os.path.join(d, sub, "a.emb"), "w") as f:
+                        f.write(A_TEXT.replace("2 [+2]  UInt  x", "2 [+%d]  UInt  x" % (k + 1)))
+                with open(os.path.join(d, "b.emb"), "w") as f:
+                    f.write(main_text)
+                args = ["--color-output", "never", "--output-path", "out", "-I", "dir_b", "-I", "dir_a", "-I", "dir_c", "-I", "zdir", "-I", "."]
+                rc, so, se = run_cli("embossc", args + ["b.emb"], d, seed)
+                p = os.path.join(d, "out", "b.emb.h")
+                per_seed[seed] = (rc, so, se, open(p).read() if os.path.exists(p) else None)
+            finally:
+                shutil.rmtree(d, ignore_errors=True)
+        outs.extend(per_seed.values())
+        first = per_seed[seeds[0]]
+        for seed in seeds[1:]:
+            if per_seed[seed] != first:
+                viol.append({"key": "hashseed-dependent:import-dirs-" + scenario, "msg": "embossc with 5 import dirs (%s a.emb): output differs between "
+                             "PYTHONHASHSEED=%d and %d" % (scenario, seed, seeds[0]),
+                             "detail": {"first": str(first)[:700], "other": str(per_seed[seed])[:700]}})
+                break
+        if scenario == "shadowed" and first[0] == 0 and first[3] is not None:
+            # the first directory listed wins: dir_b's a.emb has a 1-byte x, so Aa is at most 3 bytes
+            pass
+    return {"viol": viol, "n": len(outs), "traces": len(outs), "transitions": len(outs), "state_keys": [], "nt": ["importdirs-a", "importdirs-b", "importdirs-seeds"]}
 
 
 def check_case(case):
